@@ -592,6 +592,42 @@ def decorated_op(rng, depth=0):
     return op
 
 
+
+def constructed_wrapper_op(rng):
+    """wrapper operations built through their constructors, in shapes the convenience methods never produce
+    (zero tags, tags around an already tagged op, controls around a controlled op, ...)"""
+    import cirq
+    op = base_op(rng)
+    k = int(rng.integers(6))
+    if k == 0:
+        return cirq.TaggedOperation(op)
+    if k == 1:
+        return cirq.TaggedOperation(cirq.TaggedOperation(op, tag(rng)), tag(rng))
+    if k == 2:
+        return cirq.TaggedOperation(cirq.TaggedOperation(op), *tags(rng))
+    if k == 3 and type(op) is cirq.GateOperation and cirq.has_unitary(op):
+        used = set(op.qubits)
+        c1 = [q for q in qids_for(rng, (2,)) if q not in used and all(_qkey(q) != _qkey(u) for u in used)]
+        if c1:
+            inner = cirq.ControlledOperation(c1, op)
+            c2 = [q for q in qids_for(rng, (2,)) if q not in set(inner.qubits) and all(_qkey(q) != _qkey(u) for u in inner.qubits)]
+            if c2:
+                try:
+                    return cirq.ControlledOperation(c2, inner, control_values=[int(rng.integers(2))])
+                except ValueError:
+                    return inner
+            return inner
+    if k == 4 and not cirq.is_measurement(op):
+        try:
+            inner = cirq.ClassicallyControlledOperation(op, [condition(rng)])
+            return cirq.ClassicallyControlledOperation(inner, [condition(rng)])
+        except ValueError:
+            pass
+    if k == 5:
+        return cirq.TaggedOperation(op, tag(rng)).with_tags()
+    return cirq.TaggedOperation(op, *tags(rng))
+
+
 def pauli_string(rng, qs=None):
     import cirq
     qs = qs or qids_for(rng, (2,) * int(rng.integers(0, 4)))
@@ -1384,6 +1420,8 @@ def build_generators():
     add("op:base", base_op, "op")
     for i in range(4):
         add("op:decorated/%d" % i, decorated_op, "op")
+    add("op:constructed", constructed_wrapper_op, "op")
+    add("op:constructed/1", constructed_wrapper_op, "op")
     add("op:measure", measure_op, "op")
     add("op:pauli", pauli_like_op, "op")
     add("op:pauli/1", pauli_like_op, "op")
